@@ -599,7 +599,14 @@ class Network:
 
         pending = {direct_task, indirect_task}
         while pending:
-            done, pending = await asyncio.wait(pending, return_when=asyncio.FIRST_COMPLETED)
+            try:
+                done, pending = await asyncio.wait(pending, return_when=asyncio.FIRST_COMPLETED)
+            except asyncio.CancelledError:
+                # asyncio.wait does not cancel the tasks it is waiting for
+                for pending_task in pending:
+                    pending_task.cancel()
+                await asyncio.gather(*pending, return_exceptions=True)
+                raise
 
             connections = []
             for done_task in done:
